@@ -212,12 +212,19 @@ func (p List) Struct(i int) Struct {
 	if !ok {
 		return Struct{}
 	}
+	// Projecting an element costs one level, but must not wrap around:
+	// a list obtained at depth limit zero yields elements whose pointers
+	// cannot be dereferenced any further.
+	depthLimit := p.depthLimit
+	if depthLimit > 0 {
+		depthLimit--
+	}
 	return Struct{
 		seg:        p.seg,
 		off:        addr,
 		size:       p.size,
 		flags:      isListMember,
-		depthLimit: p.depthLimit - 1,
+		depthLimit: depthLimit,
 	}
 }
 
